@@ -11,8 +11,15 @@ Tie C.  Families (each a function taking JSON-able case dicts, so that replay re
   lik       expected_log_prob / log_marginal vs the rule applied to the documented density (expr).
   bern      analytic Bernoulli marginal / log_marginal vs Phi(m / sqrt(1+v)) and vs mpmath.quad.
   logphi    log_normal_cdf and its derivative vs log Phi, phi/Phi on a dense sweep (test only).
-  trunc     expected_log_prob vs adaptive integration of the documented density (test only)."""
+  trunc     expected_log_prob vs adaptive integration of the documented density (test only).
+Axes shared by the families: `xform` (the module - quadrature or likelihood - is built first and THEN cast / moved /
+copied: .double() .float() .to(dtype) .cpu() .to("cpu") deepcopy pickle state_dict round trip, then evaluated; the
+nodes after the transformation must be the casts of hermgauss(n), E[1] must be 1) and far-tail observations for
+expected_log_prob / log_marginal (|y - m| up to hundreds of scale units, marginal densities down to 1e-280; the model
+side is an expr evaluated by mpmath, nothing underflows there)."""
 import contextlib
+import copy
+import pickle
 import json
 import math
 import random
@@ -65,23 +72,98 @@ def dyadic(rng, bits, emin, emax, signed=False, zero=False):
 
 _QUADS = {}
 
+# module transformations (applied AFTER construction).  QUAD_XFORMS for the bare quadrature module (any final dtype),
+# LIK_XFORMS for likelihoods (sequences ending in float64, so that the realised parameters are float64 numbers)
+LIK_XFORMS = [["double"], ["to64"], ["cpu"], ["to_cpu"], ["deepcopy"], ["pickle"], ["state_dict"], ["float", "double"],
+              ["deepcopy", "double"], ["to32", "to64"], ["pickle", "cpu"], ["eval", "double"]]
+QUAD_XFORMS = LIK_XFORMS + [["float"], ["to32"], ["double", "float"], ["deepcopy", "float"], ["float", "pickle"]]
 
-def get_quad(n, default):
+
+def apply_xform(mod, xform, rebuild):
+    """cast / move / copy a built module; `rebuild()` makes a fresh module of the same configuration (state_dict
+    round trip).  Returns the module to use afterwards."""
+    for a in xform or []:
+        if a == "double":
+            mod = mod.double()
+        elif a == "float":
+            mod = mod.float()
+        elif a == "to64":
+            mod = mod.to(torch.float64)
+        elif a == "to32":
+            mod = mod.to(torch.float32)
+        elif a == "cpu":
+            mod = mod.cpu()
+        elif a == "to_cpu":
+            mod = mod.to("cpu")
+        elif a == "deepcopy":
+            mod = copy.deepcopy(mod)
+        elif a == "pickle":
+            mod = pickle.loads(pickle.dumps(mod))
+        elif a == "eval":
+            mod = mod.eval()
+        elif a == "state_dict":
+            fresh = rebuild()
+            fresh.load_state_dict(mod.state_dict())
+            mod = fresh
+        else:
+            raise ValueError("unknown transformation %r" % a)
+    return mod
+
+
+def expected_nodes(n, default, xform):
+    """what the nodes of an n-point module built in `default` dtype must be after `xform`: numpy's hermgauss(n) taken
+    through the same sequence of dtypes (a cast is elementwise rounding; copies and moves change nothing).
+    Returns (locations, weights, prec) with prec = 'float32' when the values went through float32 at some point."""
+    t_np, w_np = np.polynomial.hermite.hermgauss(n)
+    dt0 = torch.float32 if default == "float32" else torch.float64
+    t, w = torch.tensor(t_np, dtype=torch.float64).to(dt0), torch.tensor(w_np, dtype=torch.float64).to(dt0)
+    prec32 = dt0 == torch.float32
+    for a in xform or []:
+        if a in ("double", "to64"):
+            t, w = t.double(), w.double()
+        elif a in ("float", "to32"):
+            t, w = t.float(), w.float()
+            prec32 = True
+        elif a == "state_dict":       # a fresh module (its nodes are not part of the state dict)
+            t, w = torch.tensor(t_np, dtype=torch.float64).to(dt0), torch.tensor(w_np, dtype=torch.float64).to(dt0)
+            prec32 = dt0 == torch.float32
+    return t, w, "float32" if prec32 else "float64"
+
+
+def check_nodes(out, q, n, default, xform, case, who="quadrature"):
+    """the module's nodes after construction + transformation are the casts of hermgauss(n)"""
+    t, w, prec = expected_nodes(n, default, xform)
+    ok = (isinstance(q.locations, torch.Tensor) and isinstance(q.weights, torch.Tensor)
+          and q.locations.dtype == t.dtype and q.weights.dtype == w.dtype
+          and q.locations.shape == t.shape and q.weights.shape == w.shape
+          and torch.equal(q.locations, t) and torch.equal(q.weights, w))
+    if not ok:
+        out.fail("%s:nodes-after-transform:%s" % (who, "+".join(xform) if xform else "none"),
+                 "nodes / weights of the %d-point module after %s are not the casts of hermgauss(%d) (sum of weights / sqrt(pi) "
+                 "= %.6g, must be 1)" % (n, xform or "construction", n, float(q.weights.double().sum()) / math.sqrt(math.pi)), case,
+                 impl=dict(t=q.locations.double().tolist(), w=q.weights.double().tolist()),
+                 model=dict(t=t.double().tolist(), w=w.double().tolist()))
+    return prec
+
+
+def get_quad(n, default, xform=None):
     """the module under test; `default` is the torch default dtype at construction (the code builds its node
-    tensors with torch.Tensor(np_array), i.e. in the default dtype)"""
-    key = (n, default)
+    tensors with torch.Tensor(np_array), i.e. in the default dtype); `xform`: transformations applied afterwards"""
+    key = (n, default, tuple(xform or ()))
     if key not in _QUADS:
-        old = torch.get_default_dtype()
-        torch.set_default_dtype(torch.float32 if default == "float32" else torch.float64)
-        try:
-            if n is None:
-                q = GaussHermiteQuadrature1D()
-            else:
-                q = GaussHermiteQuadrature1D(n)
-        finally:
-            torch.set_default_dtype(old)
-        _QUADS[key] = q
+        def build():
+            old = torch.get_default_dtype()
+            torch.set_default_dtype(torch.float32 if default == "float32" else torch.float64)
+            try:
+                return GaussHermiteQuadrature1D() if n is None else GaussHermiteQuadrature1D(n)
+            finally:
+                torch.set_default_dtype(old)
+        _QUADS[key] = apply_xform(build(), xform, build)
     return _QUADS[key]
+
+
+def final32(default, xform):
+    return expected_nodes(1, default, xform)[0].dtype == torch.float32
 
 
 def quad_nodes(q):
@@ -225,8 +307,10 @@ def fam_expect(out, cases, tag="C13_expect"):
         model[(ci, j)] = a
     for ci, c in enumerate(cases):
         n, p, shape = c["n"], c["p"], c["shape"]
-        q = get_quad(n, c["default"])
-        ts, ws = quad_nodes(q)
+        xf = c.get("xform")
+        q = get_quad(n, c["default"], xf)
+        prec = check_nodes(out, q, n, c["default"], xf, c)
+        ts, ws = (x.double().tolist() for x in expected_nodes(n, c["default"], xf)[:2])      # for the rounding bound only
         mean, sd = reshape(c["m"], shape), reshape(c["sd"], shape)
         try:
             got = q(horner(p), make_dist(c["dist"], mean, sd=sd))
@@ -238,19 +322,24 @@ def fam_expect(out, cases, tag="C13_expect"):
             continue
         got = got.reshape(-1).tolist()
         deg = len(p) - 1
-        eps = EPS32 if c["default"] == "float32" else EPS64
-        fac = 10 if c["default"] == "float32" else 50
+        eps = EPS32 if prec == "float32" else EPS64
+        fac = 10 if prec == "float32" else 50
+        lab = c["default"] if not xf else "xform:" + prec
         for j, (m, sd_j) in enumerate(zip(c["m"], c["sd"])):
             ex = model[(ci, j)]
             xs = [math.sqrt(2.0) * sd_j * t + m for t in ts]
             tol = fac * eps * cond_bound(p, xs, ws) + 1e-300
             plug = sum(Fraction(cc) * Fraction(m) ** k for k, cc in enumerate(p))
             desc = dict(fam="expect", n=n, deg=deg, default=c["default"], dist=c["dist"], shape=list(shape), kind=c["kind"], m=m, sd=sd_j)
+            if xf:
+                desc["xform"] = xf
+                out.count("xform:" + "+".join(xf))
             if deg < 2 * n:
-                out.case(desc, abs(float(ex - plug)) > 10 * tol, label="expect:%s:n=%d" % (c["default"], n))
+                # after a transformation E[1] = 1 is itself the claim (the weights must survive the cast)
+                out.case(desc, abs(float(ex - plug)) > 10 * tol or bool(xf), label="expect:%s:n=%d" % (lab, n))
                 out.count("expect:deg=%d" % deg)
                 if not abs(got[j] - float(ex)) <= tol:
-                    out.fail("quadrature:poly-exactness:%s" % c["default"],
+                    out.fail("quadrature:poly-exactness:%s" % lab,
                              "quadrature of a degree-%d polynomial with %d nodes differs from E_N(m,v)[p] (tol %.3e)" % (deg, n, tol),
                              dict(c, element=j), impl=got[j], model=float(ex), tol=tol)
             else:
@@ -270,15 +359,29 @@ def gen_expect(rng, tier):
     cases = []
     shapes = [(), (1,), (3,), (2, 2), (2, 1, 2)]
 
-    def draw(n, deg, kind, default="float64", shape=None):
+    def draw(n, deg, kind, default="float64", shape=None, xform=None):
         shape = rng.choice(shapes) if shape is None else shape
         cnt = int(np.prod(shape)) if shape else 1
         p = [0.0] * deg + [1.0] if kind == "monomial" else [rng.randint(-64, 64) / 16.0 for _ in range(deg)] + [rng.choice([-1, 1]) * rng.randint(1, 64) / 16.0]
         dist = rng.choice(["normal", "mvn"]) if shape else "normal"
         emin = -10 if dist == "normal" else -6            # MultivariateNormal clamps variances below settings.min_variance
-        return dict(fam="expect", n=n, default=default, dist=dist, shape=list(shape), p=p, kind=kind,
-                    m=[dyadic(rng, 6, -10, 4, signed=True, zero=True) for _ in range(cnt)],
-                    sd=[dyadic(rng, 6, emin, 4) for _ in range(cnt)])
+        c = dict(fam="expect", n=n, default=default, dist=dist, shape=list(shape), p=p, kind=kind,
+                 m=[dyadic(rng, 6, -10, 4, signed=True, zero=True) for _ in range(cnt)],
+                 sd=[dyadic(rng, 6, emin, 4) for _ in range(cnt)])
+        if xform:
+            c["xform"] = xform
+        return c
+    # module transformations: build, then cast / move / copy, then integrate.  E[1] (degree 0) for every
+    # transformation and every n, and a polynomial of random degree; final-float32 modules get dimensioned inputs
+    # (same reason as for the float32 default dtype below)
+    for n in NS:
+        for k, xf in enumerate(QUAD_XFORMS):
+            default = "float32" if (k + n) % 5 == 0 else "float64"
+            shp = rng.choice(shapes[1:]) if (final32(default, xf) or default == "float32") else None
+            cases.append(draw(n, 0, "monomial", default=default, shape=shp, xform=xf))
+            if tier != "quick" or (k + n) % 2 == 0:
+                cases.append(draw(n, rng.randint(1, min(2 * n - 1, 14)), rng.choice(["monomial", "random"]), default=default,
+                                  shape=shp, xform=xf))
     for n in NS:
         for deg in range(2 * n):                           # every degree 0..2n-1: monomial + random polynomial
             batchy = (deg % 3 == 0) if deg < 16 else (deg % 10 == 9)      # high degrees are expensive in exact arithmetic
@@ -297,7 +400,7 @@ def gen_expect(rng, tier):
     # the settings default (num_gauss_hermite_locs) read by the constructor
     with gs.num_gauss_hermite_locs(4):
         q = GaussHermiteQuadrature1D()
-    _QUADS[(4, "float64")] = q
+    _QUADS[(4, "float64", ())] = q
     for deg in range(9):
         cases.append(draw(4, deg, "random", shape=(2,)))
     return cases
@@ -310,22 +413,24 @@ def fam_rule(out, cases, tag="C13_rule"):
     impl vs the Coq model of the formula (1/sqrt pi) sum_i w_i p(s t_i + m) on the module's own nodes."""
     coq, owner = [], []
     for ci, c in enumerate(cases):
-        ts, ws = quad_nodes(get_quad(c["n"], c["default"]))
+        # the model is given the nodes the module MUST have (casts of hermgauss), not the ones it happens to hold
+        ts, ws = (x.double().tolist() for x in expected_nodes(c["n"], c["default"], c.get("xform"))[:2])
         for j, (m, s) in enumerate(zip(c["m"], c["s"])):
             coq.append("(%s, %s, %s, %s, %s)" % (C.qc_vec(ts), C.qc_vec(ws), C.qc_lit(s), C.qc_lit(m), C.qc_vec(c["p"])))
             owner.append((ci, j))
     res = coq_run(tag, "run_rule_poly", coq, files=8, strings=True)
     model = {o: C.Reader(r).expr() for o, r in zip(owner, res)}
     for ci, c in enumerate(cases):
-        q = get_quad(c["n"], c["default"])
-        ts, ws = quad_nodes(q)
+        q = get_quad(c["n"], c["default"], c.get("xform"))
+        check_nodes(out, q, c["n"], c["default"], c.get("xform"), c)
+        ts, ws = (x.double().tolist() for x in expected_nodes(c["n"], c["default"], c.get("xform"))[:2])
         mean = torch.tensor(c["m"], dtype=torch.float64)
         var = torch.tensor([s * s / 2 for s in c["s"]], dtype=torch.float64)
         got = q(horner(c["p"]), make_dist("mvn", mean, var=var)).tolist()
         for j, (m, s) in enumerate(zip(c["m"], c["s"])):
             tol = 50 * EPS64 * cond_bound(c["p"], [s * t + m for t in ts], ws) + 1e-300
-            out.case(dict(fam="rule", n=c["n"], deg=len(c["p"]) - 1, default=c["default"], m=m, s=s), len(c["p"]) >= 2,
-                     label="rule:%s:n=%d" % (c["default"], c["n"]))
+            out.case(dict(fam="rule", n=c["n"], deg=len(c["p"]) - 1, default=c["default"], m=m, s=s, xform=c.get("xform")),
+                     len(c["p"]) >= 2 or bool(c.get("xform")), label="rule:%s:n=%d" % (c["default"], c["n"]))
             if not abs(got[j] - float(model[(ci, j)])) <= tol:
                 out.fail("quadrature:rule-formula:%s" % c["default"],
                          "module output differs from (1/sqrt pi) sum_i w_i p(sqrt(2v) t_i + m) on its own nodes (tol %.3e)" % tol,
@@ -341,6 +446,12 @@ def gen_rule(rng, tier):
                 cases.append(dict(fam="rule", n=n, default=default, p=[rng.randint(-64, 64) / 16.0 for _ in range(deg + 1)],
                                   m=[dyadic(rng, 6, -8, 3, signed=True, zero=True) for _ in range(2)],
                                   s=[dyadic(rng, 6, -4, 3) for _ in range(2)]))
+        for _ in range(3 if tier == "quick" else 10):     # built, then cast / moved / copied
+            deg = rng.randint(0, min(2 * n + 2, 10))
+            cases.append(dict(fam="rule", n=n, default=rng.choice(["float64", "float64", "float32"]), xform=rng.choice(QUAD_XFORMS),
+                              p=[rng.randint(-64, 64) / 16.0 for _ in range(deg + 1)],
+                              m=[dyadic(rng, 6, -8, 3, signed=True, zero=True) for _ in range(2)],
+                              s=[dyadic(rng, 6, -4, 3) for _ in range(2)]))
     return cases
 
 
@@ -356,32 +467,53 @@ def beta_documented_offset():
     return 0
 
 
-def make_lik(kind, par, n=None, B=None):
-    """par: dict of requested values (lists of length B when batched).  Returns (lik, realised parameter lists)."""
+def make_lik(kind, par, n=None, B=None, xform=None):
+    """par: dict of requested values (lists of length B when batched); xform: transformations applied to the built
+    likelihood (parameters set first).  Returns (lik, realised parameter lists read AFTER the transformations)."""
     bs = torch.Size([B]) if B else torch.Size([])
-    ctx = gs.num_gauss_hermite_locs(n) if n else contextlib.nullcontext()
     L = gpytorch.likelihoods
 
     def shp(v):
         return torch.tensor(v, dtype=torch.float64).reshape(*bs, 1)
-    with ctx:
-        if kind == "bern":
-            lik = L.BernoulliLikelihood()
-            real = {}
-        elif kind == "laplace":
-            lik = L.LaplaceLikelihood(batch_shape=bs)
-            lik.noise = shp(par["noise"])
-            real = dict(noise=lik.noise.reshape(-1).tolist())
-        elif kind == "student":
-            lik = L.StudentTLikelihood(batch_shape=bs)
-            lik.noise = shp(par["noise"])
-            lik.deg_free = shp(par["nu"])
-            real = dict(noise=lik.noise.reshape(-1).tolist(), nu=lik.deg_free.reshape(-1).tolist())
-        else:
-            lik = L.BetaLikelihood(batch_shape=bs)
-            lik.scale = shp(par["scale"])
-            real = dict(scale=lik.scale.reshape(-1).tolist())
+
+    def build(setpar=True):
+        with (gs.num_gauss_hermite_locs(n) if n else contextlib.nullcontext()):
+            if kind == "bern":
+                lik = L.BernoulliLikelihood()
+            elif kind == "laplace":
+                lik = L.LaplaceLikelihood(batch_shape=bs)
+                if setpar:
+                    lik.noise = shp(par["noise"])
+            elif kind == "student":
+                lik = L.StudentTLikelihood(batch_shape=bs)
+                if setpar:
+                    lik.noise = shp(par["noise"])
+                    lik.deg_free = shp(par["nu"])
+            else:
+                lik = L.BetaLikelihood(batch_shape=bs)
+                if setpar:
+                    lik.scale = shp(par["scale"])
+        return lik
+    lik = apply_xform(build(), xform, lambda: build(False))
+    if kind == "bern":
+        real = {}
+    elif kind == "laplace":
+        real = dict(noise=lik.noise.double().reshape(-1).tolist())
+    elif kind == "student":
+        real = dict(noise=lik.noise.double().reshape(-1).tolist(), nu=lik.deg_free.double().reshape(-1).tolist())
+    else:
+        real = dict(scale=lik.scale.double().reshape(-1).tolist())
     return lik, real
+
+
+def lik_nodes(out, lik, n, xform, case):
+    """(ts, ws) the likelihood's quadrature MUST hold (checked): hermgauss(n or the setting's default) through xform"""
+    nn = n or gs.num_gauss_hermite_locs.value()
+    q = getattr(lik, "quadrature", None)
+    if q is not None:
+        check_nodes(out, q, nn, "float64", xform, case, who="likelihood")
+    t, w, _ = expected_nodes(nn, "float64", xform)
+    return t.double().tolist(), w.double().tolist()
 
 
 def draw_par(rng, kind, B):
@@ -445,7 +577,7 @@ def fam_cond(out, cases, tag="C13_cond"):
     off_doc = beta_documented_offset()
     coq, owner, liks = [], [], []
     for ci, c in enumerate(cases):
-        lik, real = make_lik(c["kind"], c["par"], B=c["B"])
+        lik, real = make_lik(c["kind"], c["par"], B=c["B"], xform=c.get("xform"))
         liks.append((lik, real))
         kind = c["kind"]
         for b, (frow, yrow) in enumerate(zip(c["f"], c["y"])):
@@ -492,7 +624,7 @@ def fam_cond(out, cases, tag="C13_cond"):
         for b in range(len(c["f"])):
             for i in range(N):
                 f, y = c["f"][b][i], c["y"][b][i]
-                desc = dict(fam="cond", kind=kind, B=B, N=N, f=f, y=y, par={k: v[b] for k, v in real.items()})
+                desc = dict(fam="cond", kind=kind, B=B, N=N, f=f, y=y, par={k: v[b] for k, v in real.items()}, xform=c.get("xform"))
                 out.case(desc, True, label="cond:%s" % kind)
                 a_doc = par_args(kind, real, b, off_doc)
                 # tie of the python integrand oracle to the Coq formula
@@ -549,6 +681,8 @@ def gen_cond(rng, tier):
             cases.append(dict(fam="cond", kind=kind, par=draw_par(rng, kind, B), B=B, N=N,
                               f=[[rng.randint(-96, 96) / 16.0 for _ in range(N)] for _ in range(rows)],
                               y=[[draw_y(rng, kind) for _ in range(N)] for _ in range(rows)]))
+            if rng.random() < 0.5:
+                cases[-1]["xform"] = rng.choice(LIK_XFORMS)
     return cases
 
 
@@ -604,11 +738,13 @@ def fam_lik(out, cases, tag="C13_lik"):
     off_doc = beta_documented_offset()
     coq, owner, liks = [], [], []
     for ci, c in enumerate(cases):
-        lik, real = make_lik(c["kind"], c["par"], n=c["n"], B=c["B"])
+        lik, real = make_lik(c["kind"], c["par"], n=c["n"], B=c["B"], xform=c.get("xform"))
         liks.append((lik, real))
-        ts, ws = quad_nodes(lik.quadrature)
-        if c["n"] and len(ts) != c["n"]:
-            out.fail("likelihood:num_gauss_hermite_locs", "likelihood built under num_gauss_hermite_locs(%d) has %d nodes" % (c["n"], len(ts)), c)
+        nown = lik.quadrature.locations.numel()
+        if c["n"] and nown != c["n"]:
+            out.fail("likelihood:num_gauss_hermite_locs", "likelihood built under num_gauss_hermite_locs(%d) has %d nodes" % (c["n"], nown), c)
+        # the model integrates over the nodes the likelihood MUST hold after the transformations (checked here)
+        ts, ws = lik_nodes(out, lik, c["n"], c.get("xform"), c)
         for b in range(len(c["m"])):
             for i in range(c["N"]):
                 for off in ((off_doc, 1 - off_doc) if c["kind"] == "beta" else (0,)):
@@ -632,7 +768,7 @@ def fam_lik(out, cases, tag="C13_lik"):
         except Exception as e:
             out.fail("%s:%s:exception:%s" % (kind, c["fn"], type(e).__name__), "likelihood.%s raised %r" % (c["fn"], e), c)
             continue
-        ts, _ = quad_nodes(lik.quadrature)
+        ts, _ = (x.double().tolist() for x in expected_nodes(c["n"] or gs.num_gauss_hermite_locs.value(), "float64", c.get("xform"))[:2])
         fname = "expected_log_prob" if c["fn"] == "elp" else "log_marginal"
         for b in range(len(c["m"])):
             for i in range(N):
@@ -642,9 +778,23 @@ def fam_lik(out, cases, tag="C13_lik"):
                 branch = "exact"
                 if kind == "bern" and c["fn"] == "elp" and any((2 * y - 1) * (s * t + m) < -1 + 1e-9 for t in ts):
                     tol, branch = 2e-3, "approx"        # log_normal_cdf is only claimed to 2e-3 below -1
-                out.case(dict(fam="lik", kind=kind, fn=c["fn"], n=len(ts), B=B, m=m, s=s, y=y, par={k: v[b] for k, v in real.items()}),
-                         True, label="lik:%s:%s:%s" % (kind, c["fn"], branch))
+                if c.get("tail"):
+                    branch += ":far-tail"
+                    out.count("lik:far-tail:%s:%s:log-value in [%d00, %d00)" % (kind, c["fn"], math.floor(float(mod) / 100), math.floor(float(mod) / 100) + 1))
+                desc = dict(fam="lik", kind=kind, fn=c["fn"], n=len(ts), B=B, m=m, s=s, y=y, par={k: v[b] for k, v in real.items()})
+                if c.get("xform"):
+                    desc["xform"] = c["xform"]
+                    out.count("xform:" + "+".join(c["xform"]))
+                out.case(desc, True, label="lik:%s:%s:%s" % (kind, c["fn"], branch))
                 out.count("lik:n=%d" % len(ts))
+                if c["fn"] == "lm" and float(mod) < -690:
+                    # the marginal density is below float64's normal range (1e-300): only "far down" can be asked for
+                    out.count("lik:far-tail:below-float-range")
+                    if not got[b][i] <= -650:
+                        out.fail("%s:%s:far-tail-saturates" % (kind, fname), "%s of %s likelihood is %r where the rule applied to the "
+                                 "documented density gives %.6g" % (fname, kind, got[b][i], float(mod)), dict(c, b=b, i=i),
+                                 impl=got[b][i], model=float(mod))
+                    continue
                 if not abs(got[b][i] - float(mod)) <= tol:
                     key = "%s:%s" % ({"bern": "bernoulli"}.get(kind, kind), fname)
                     if kind == "beta" and off_doc == 0:
@@ -653,6 +803,32 @@ def fam_lik(out, cases, tag="C13_lik"):
                             key += ":alpha-beta-plus-one"
                     out.fail(key, "%s of %s likelihood differs from the %d-node rule applied to the documented density (tol %.1e)"
                              % (fname, kind, len(ts), tol), dict(c, b=b, i=i), impl=got[b][i], model=float(mod), tol=tol)
+
+
+def tail_case(rng, kind, fn, n):
+    """an observation in the FAR tail of the marginal: |y - m| of 30..600 Laplace scale units, 1e5..1e21 Student-t
+    scale units, y within 2^-30..2^-100 of 0 (2^-30..2^-50 of 1) for Beta, |m| of 8..35 function standard deviations on the wrong
+    side for Bernoulli - marginal densities down to ~1e-280, log-likelihood terms down to ~-650"""
+    N = rng.randint(1, 2)
+    par = draw_par(rng, kind, None)
+    m = [rng.randint(-48, 48) / 16.0 for _ in range(N)]
+    s = [dyadic(rng, 5, -5, -2) * 2 for _ in range(N)]
+    y = []
+    for j in range(N):
+        sgn = rng.choice([-1, 1])
+        if kind == "laplace":
+            u = math.exp(rng.uniform(math.log(30.0), math.log(600.0)))
+            y.append(round((m[j] + sgn * u * math.sqrt(par["noise"])) * 16) / 16.0)
+        elif kind == "student":
+            u = 10.0 ** rng.uniform(5.0, 21.0)
+            y.append(float(round((m[j] + sgn * u * math.sqrt(par["noise"])) * 16) / 16.0))
+        elif kind == "beta":
+            y.append(2.0 ** -rng.randint(30, 100) if sgn < 0 else 1.0 - 2.0 ** -rng.randint(30, 50))
+        else:
+            y.append(float(rng.randint(0, 1)))
+            m[j] = -(2 * y[j] - 1) * rng.randint(8 * 16, 35 * 16) / 16.0
+            s[j] = rng.randint(1, 8) / 64.0
+    return dict(fam="lik", kind=kind, fn=fn, n=n, par=par, B=None, N=N, m=[m], s=[s], y=[y], tail=True)
 
 
 def gen_lik(rng, tier):
@@ -683,6 +859,17 @@ def gen_lik(rng, tier):
                     cases.append(dict(fam="lik", kind=kind, fn="elp", n=n, par={}, B=None, N=2,
                                       m=[[sgn * rng.randint(16, 64) / 16.0 for _ in range(2)]],
                                       s=[[rng.randint(1, 8) / 64.0 for _ in range(2)]], y=[[y, y]]))
+    for c in cases:                                         # built, then cast / moved / copied, then evaluated
+        if rng.random() < 0.5:
+            c["xform"] = rng.choice(LIK_XFORMS)
+    # far-tail observations, every likelihood, both functions
+    for kind in KINDS:
+        for fn in (("elp",) if kind == "bern" else ("elp", "lm")):
+            for n in ([5, None] if quick else [3, 5, 10, 20, None]):
+                for _ in range(2 if quick else 6):
+                    cases.append(tail_case(rng, kind, fn, n))
+                    if rng.random() < 0.3:
+                        cases[-1]["xform"] = rng.choice(LIK_XFORMS)
     return cases
 
 
@@ -697,8 +884,9 @@ def fam_bern(out, cases, tag="C13_bern"):
             coq.append("(4, %s)" % C.qc_vec([y, m, v])); owner.append((ci, j, "lm"))
     res = coq_run(tag, "run_formula", coq, files=4)
     model = {o: C.Reader(r).expr() for o, r in zip(owner, res)}
-    lik = gpytorch.likelihoods.BernoulliLikelihood()
     for ci, c in enumerate(cases):
+        lik, _ = make_lik("bern", {}, xform=c.get("xform"))
+        lik_nodes(out, lik, None, c.get("xform"), c)
         shape = tuple(c["shape"])
         mean, var, yt = reshape(c["m"], shape), reshape(c["v"], shape), reshape(c["y"], shape)
         dist = make_dist("mvn", mean, var=var)
@@ -706,7 +894,7 @@ def fam_bern(out, cases, tag="C13_bern"):
         lm = lik.log_marginal(yt, dist).reshape(-1).tolist()
         for j, (m, v, y) in enumerate(zip(c["m"], c["v"], c["y"])):
             mp_, ml = model[(ci, j, "p")], model[(ci, j, "lm")]
-            out.case(dict(fam="bern", m=m, v=v, y=y, shape=list(shape)), True, label="bern:marginal")
+            out.case(dict(fam="bern", m=m, v=v, y=y, shape=list(shape), xform=c.get("xform")), True, label="bern:marginal")
             if not abs(probs[j] - float(mp_)) <= 1e-13 + 1e-12 * float(mp_):
                 out.fail("bernoulli:marginal:probs", "likelihood(dist).probs differs from Phi(m / sqrt(1+v))", dict(c, element=j),
                          impl=probs[j], model=float(mp_))
@@ -735,6 +923,8 @@ def gen_bern(rng, tier):
         cases.append(dict(fam="bern", shape=list(shape), quad=(k % 2 == 0),
                           m=[dyadic(rng, 6, -10, 1, signed=True, zero=True) for _ in range(cnt)],
                           v=[dyadic(rng, 6, -9, 3) for _ in range(cnt)], y=[float(rng.randint(0, 1)) for _ in range(cnt)]))
+        if k % 3 == 0:
+            cases[-1]["xform"] = rng.choice(LIK_XFORMS)
     return cases
 
 
@@ -894,8 +1084,13 @@ def run(out, ctx):
                 "(rule must miss by c n! sd^2n); rule formula on the module's own nodes; Bernoulli/Laplace/StudentT/Beta/Softmax "
                 "conditional parameters and log-densities with parameter draws and batched parameters; expected_log_prob/log_marginal "
                 "for num_gauss_hermite_locs in %s + default vs the rule applied to the documented density; analytic Bernoulli marginal; "
-                "log_normal_cdf sweep z in [-40,10] + branch boundaries. non-trivial = E[p] differs from p(m) by more than 10 tol "
-                "(polynomials), degree-2n defect above 100 tol (sharpness), every likelihood case" % (NS, NS))
+                "log_normal_cdf sweep z in [-40,10] + branch boundaries.  Module-transformation axis: quadrature modules and "
+                "likelihoods are built and THEN taken through %s (likelihoods: the sequences ending in float64) before they are "
+                "evaluated; their nodes must be the casts of hermgauss(n) and E[1] = 1.  Far-tail axis: expected_log_prob / "
+                "log_marginal of every likelihood at observations 30..600 (Laplace) / 1e5..1e21 (Student-t) scale units from the "
+                "mean, Beta targets within 2^-30..2^-100 of 0 / 2^-30..2^-50 of 1, Bernoulli means 8..35 on the wrong side (log values down to "
+                "-650).  non-trivial = E[p] differs from p(m) by more than 10 tol (polynomials) or the module was transformed, "
+                "degree-2n defect above 100 tol (sharpness), every likelihood case" % (NS, NS, ["+".join(x) for x in QUAD_XFORMS]))
     out.tested_not_proved = [
         "premise of c13_gh_affine_exact for numpy hermgauss(n), n in %s: validated with mpmath (60 digits) against the model's "
         "Hermite moments, tolerance 1e-14 (k+1) sum_i w_i |t_i|^k for the float64 nodes, 1e-45 for their 60-digit refinements"
